@@ -262,20 +262,6 @@ class ValidityTimeAVP(DiameterAVP, Unsigned32Type):
         Unsigned32Type.__init__(self, data=data)
 
 
-class ValueDigitsAVP(DiameterAVP, Unsigned64Type):
-    """Implementation of Value-Digits AVP in Section 8.10 of IETF RFC 4006.
-
-    The Value-Digits AVP (AVP Code 447) is of type Integer64.
-    """
-    code = VALUE_DIGITS_AVP_CODE
-    vendor_id = None
-
-    def __init__(self, data):
-        DiameterAVP.__init__(self, ValueDigitsAVP.code)
-        DiameterAVP.set_mandatory_bit(self, True)
-        Unsigned64Type.__init__(self, data=data)
-
-
 class GrantedServiceUnitAVP(DiameterAVP, GroupedType):
     """Implementation of Granted-Service-Unit AVP in Section 8.17 of
     IETF RFC 4006.
